@@ -284,8 +284,10 @@ class LoggingMonitor(pp.TransferMonitor):
         # which downloads had been notified done when the Ctrl-C exit cancelled "all in progress"
         obs = getattr(self, 'obs', None)
         tids = [x.future.meta.transfer_id for x in (obs.xfers if obs is not None else ()) if x.future is not None]
-        done_before = sorted(tid for tid in tids if self._peek(tid)[0])
         r = super().notify_cancel_all_in_progress()
+        # (read AFTER the library's own pass over the states: a download still not done now was not done when that pass looked at it
+        # either, so it has been cancelled; one that finished while the pass was under way is rightly left alone)
+        done_before = sorted(tid for tid in tids if self._peek(tid)[0])
         self.w.log.add('pp.cancel_all', done_before=done_before)
         for tid in tids:
             if tid not in done_before:
